@@ -30,7 +30,7 @@ CHECKS = {
    note="Trusts the reference model's scoping rules (own, one-level captured, global); programs whose reads are ambiguous between the lexical and the dynamic reading (D-use-before-def) are skipped and counted.",
    technique="exhaustive enumeration of a finite product of scope skeletons with tagged writes against an executable reference model"),
  "C08": dict(level="model_checking", design="DESIGN.md §4 C08",
-   text="Explicit-state search over session histories: every sequence of up to 3 (4) statements from an alphabet of 44 (good statements; lexer, parser and unbalanced-input errors; every runtime error class at top level, at depth, in loop bodies, in suspended and nested generators, in a zip, in closures, with partial global effects; a top-level return out of nested loops) is replayed on a fresh real VM and followed by 15 observers; each statement is compared with the reference model, the machine must be at rest after every statement (hooks), and the observers must answer exactly as in the failure-free twin session holding the same globals.",
+   text="Explicit-state search over session histories: every sequence of up to 3 (4) statements from an alphabet of 47 (good statements; lexer, parser and unbalanced-input errors; every runtime error class at top level, at depth, in loop bodies, in suspended and nested generators, in a zip, in closures, with partial global effects; a top-level return out of nested loops) is replayed on a fresh real VM and followed by 15 observers; each statement is compared with the reference model, the machine must be at rest after every statement (hooks), and the observers must answer exactly as in the failure-free twin session holding the same globals.",
    note="States (reference global store + machine state) are reported for coverage; every history is executed in full on the real VM (traces_validated_against_impl = histories). Longer histories and other failing statements are not covered.",
    technique="explicit-state exploration of statement histories on the real session object with a reference model, hook invariants and a differential failure-free twin"),
  "C10": dict(level="model_checking", design="DESIGN.md §4 C10",
